@@ -25,7 +25,14 @@ class LocalDeme(AbstractDeme):
 
     def run_metaepoch(self, _) -> None:
         x0 = self._sprout_seed.genome
-        fun = self._problem.evaluate
+        # scipy always minimises, so the objective is negated for maximisation problems.
+        if self._problem.maximize:
+
+            def fun(x):
+                return -self._problem.evaluate(x)
+
+        else:
+            fun = self._problem.evaluate
 
         result = sopt.minimize(
             fun,
@@ -51,5 +58,5 @@ class LocalDeme(AbstractDeme):
 
     def _history_callback(self, intermediate_result) -> None:
         ind = Individual(intermediate_result.x, problem=self._problem)
-        ind.fitness = intermediate_result.fun
+        ind.fitness = -intermediate_result.fun if self._problem.maximize else intermediate_result.fun
         self._run_history.append(ind)
